@@ -1329,7 +1329,7 @@ def _offset_safe(e, base_name, lets, depth=0):
 def pan7(ctx, unit=None, only=None):
     r = RuleResult("PAN-7", "no str/String is range-sliced by an offset that is not a byte offset of that same string (a character column slices inside a multi-byte IPA letter and panics)", floor=0)
     from engine_err import expr_name, single_lets
-    units = [unit] if unit else [ctx.lib, ctx.bin]
+    units = [unit] if unit else [ctx.lib]
     n_fn = 0
     for u in units:
         for b in u.bodies:
@@ -1353,7 +1353,7 @@ def pan7(ctx, unit=None, only=None):
                              "`%s[..]` is sliced at an offset that is not derived from that string's own byte positions (len/find/char_indices): with IPA text a character column falls inside a multi-byte letter and the slice panics" % base[-1])
     r.analysed = {"functions_scanned": n_fn}
     r.nontrivial = n_fn
-    if n_fn < 300 and not only and not unit:
+    if n_fn < 250 and not only and not unit:
         raise AnchorMissing("PAN-7 scanned only %d functions" % n_fn)
-    r.inst("%d functions of lib and bin scanned for str range-slices" % n_fn, None)
+    r.inst("%d functions of the library scanned for str range-slices" % n_fn, None)
     return r
